@@ -587,6 +587,13 @@ impl Interface {
             return Some(Instant::from_millis(0));
         }
 
+        // What the last router advertisements said (a new or a withdrawn prefix or route)
+        // is applied to the addresses and routes at the beginning of the next poll.
+        #[cfg(feature = "proto-ipv6-slaac")]
+        if self.inner.slaac.sync_required(timestamp) {
+            return Some(Instant::from_millis(0));
+        }
+
         #[allow(unused_mut)]
         let mut res = sockets
             .items()
